@@ -52,6 +52,12 @@ fn one_pair<CS: BbsCiphersuite>(
 ) -> CheckResult {
     let l = msgs.len();
     let cj = || json!({"case": c, "disclosed": di, "disclosed_committed": dci, "with_commitment": cm.is_some()});
+    // a call the library refuses right before a step of the flow (what an error path leaves behind on the thread
+    // must not reach the next honest call): before generation / before verification for a part of the pairs
+    let interject = (c.seed as usize + di.len() * 3 + dci.len()) % 4;
+    if interject == 0 {
+        rep.class(&format!("refused-call-before-proof-gen:{}", crate::history::refused_call::<CS>(c.seed as u64 + (di.len() * 7 + dci.len()) as u64)));
+    }
     let proof = match PoKSignature::<BBSplus<CS>>::blind_proof_gen(pk, sig, header, ph, Some(msgs), cm, Some(di), if cm.is_some() { Some(dci) } else { None }, bf) {
         Ok(p) => p,
         Err(e) => return rep.fail(ck, "blind-proof-gen-failed", format!("blind_proof_gen: {:?}", e), cj()),
@@ -61,8 +67,11 @@ fn one_pair<CS: BbsCiphersuite>(
     rep.eval(ck, 1);
     let dcm_arg: Option<&[Vec<u8>]> = if cm.is_some() { Some(&dcm) } else { None };
     let dci_arg: Option<&[usize]> = if cm.is_some() { Some(dci) } else { None };
+    if interject == 1 {
+        rep.class(&format!("refused-call-before-proof-verify:{}", crate::history::refused_call::<CS>(c.seed as u64 + (di.len() * 5 + dci.len()) as u64)));
+    }
     // the proof object is first offered under another key and another header (refused), then honestly
-    if c.seed % 2 == 0 {
+    if c.seed % 2 == 0 && interject != 1 {
         let other_pk = BBSplusPublicKey(pk.0 + bls12_381_plus::G2Projective::GENERATOR);
         let _ = proof.blind_proof_verify(&other_pk, header, ph, Some(l), Some(&dm), dcm_arg, Some(di), dci_arg);
         let _ = proof.blind_proof_verify(pk, Some(b"another header"), ph, Some(l), Some(&dm), dcm_arg, Some(di), dci_arg);
@@ -120,6 +129,13 @@ fn check_one<CS: BbsCiphersuite>(rep: &Report, ck: &str, c: &Case) -> CheckResul
     let (hdr, phd) = (header.as_deref(), ph.as_deref());
     let (l, m) = (msgs.len(), cm.len());
 
+    // two cases in three: each step of the issuance is preceded by a call the library refuses
+    let interject = |step: u64| {
+        if c.seed % 3 != 0 {
+            rep.class(&format!("refused-call-before-step:{}", crate::history::refused_call::<CS>((c.seed as u64 >> 2) + step * 5)));
+        }
+    };
+    interject(0);
     // commit (None is the other spelling of "no committed messages")
     let cm_arg: Option<&[Vec<u8>]> = if m == 0 && c.seed % 2 == 0 { None } else { Some(&cm) };
     let (com, bf) = match Commitment::<BBSplus<CS>>::commit(cm_arg) {
@@ -135,11 +151,13 @@ fn check_one<CS: BbsCiphersuite>(rep: &Report, ck: &str, c: &Case) -> CheckResul
         other => return rep.fail(ck, "commitment-roundtrip", format!("{}", err_s(&other.map(|_| ()))), cj()),
     }
     let msgs_arg: Option<&[Vec<u8>]> = if l == 0 && c.seed % 3 == 0 { None } else { Some(&msgs) };
+    interject(1);
     let bsig = match BlindSignature::<BBSplus<CS>>::blind_sign(sk, pk, Some(&cb), hdr, msgs_arg) {
         Ok(s) => s,
         Err(e) => return rep.fail(ck, "blind-sign-failed", format!("blind_sign over an honest commitment: {:?}", e), cj()),
     };
     rep.eval(ck, 1);
+    interject(2);
     if let Err(e) = bsig.verify_blind_sign(pk, hdr, msgs_arg, cm_arg, Some(&bf)) {
         return rep.fail(ck, "verify-blind-sign-failed", format!("{:?}", e), cj());
     }
@@ -164,6 +182,7 @@ fn check_one<CS: BbsCiphersuite>(rep: &Report, ck: &str, c: &Case) -> CheckResul
     rep.eval(ck, 2);
 
     // issuance without any commitment
+    interject(3);
     let nsig = match BlindSignature::<BBSplus<CS>>::blind_sign(sk, pk, None, hdr, msgs_arg) {
         Ok(s) => s,
         Err(e) => return rep.fail(ck, "blind-sign-no-commitment-failed", format!("{:?}", e), cj()),
@@ -359,7 +378,7 @@ pub fn run(ctx: &Ctx, rep: &Report) -> Meta {
     Meta {
         rule: "prover-burst: all workers issue 1200 (quick) / 8000 (thorough) commits each at once, every fourth followed by proof_gen, every eighth by blind_sign + verify_blind_sign + blind_proof_gen, all of which must succeed; suite x key x header x ph x committed messages (M >= 0) x signer messages (L >= 0): commit, blind_sign over the commitment octets, verify_blind_sign, \
                octet round trips of commitment / signature / blind factor, issuance without commitment (None and empty spelling), then blind_proof_gen + blind_proof_verify for ALL 2^L x 2^M disclosure pairs \
-               (L, M <= 3 quick / 4 thorough, both suites) and class-sampled pairs for larger shapes incl. L+1+M > 16; shapes (k,0), (0,k), (k,k/2+1), (k mod 5,k) for every k up to 40 / 130, every total length L + 1 + M up to 100 / 270 (one split each), fixed shapes under contention, half of the cases after a warm-up history; oracle: every step Ok, decoded objects equal, proof length 272 + 32*U; \
+               (L, M <= 3 quick / 4 thorough, both suites) and class-sampled pairs for larger shapes incl. L+1+M > 16; shapes (k,0), (0,k), (k,k/2+1), (k mod 5,k) for every k up to 40 / 130, every total length L + 1 + M up to 100 / 270 (one split each), fixed shapes under contention, in two cases of three every step of the issuance, and for half of the pairs proof generation or verification, is preceded by a call the library refuses (17 kinds: key generation with short key material / long tags, garbage octets into the decoders, a commitment of 0xc0 octets into blind_sign, verification / proof generation / update with other headers, positions out of range, lists too short, a tag of 256 octets into hash_to_scalar), half of the cases after a warm-up history; oracle: every step Ok, decoded objects equal, proof length 272 + 32*U; \
                non-trivial = a disclosure pair executed on a shape; evaluations = verifications"
             .into(),
         assumptions: vec!["production randomness path (commit and proof_gen use thread_rng)".into()],
